@@ -88,7 +88,11 @@ func genPrune(r *rng) string {
 		p.cluster = 0
 		p.annots &^= aReorder | aCacheable | aMustCache | aMemoize | aSingleton
 	}
-	base := c.encode()
+	return prunePair(c.encode())
+}
+
+// the chain paired with itself minus every provider the real Bind excluded
+func prunePair(base string) string {
 	obs := runChain(base)
 	v := parseChain(base)
 	if strings.HasPrefix(obs, "BIND ok") {
